@@ -307,7 +307,7 @@ Proof.
       assert (PO : forall y, In y (sc_strms cc) -> P (eq (next_cur fr)) y /\ st_id y <= sc_lastID c2 /\ st_id y <> 0).
       { intros y Iy. unfold cc in Iy. rewrite sc_strms_close_stream in Iy.
         assert (Ny : st_id y <> st_id s5).
-        { intro E. apply (iso_del_gone _ (st_id s5) ND5). rewrite <- E. apply in_map. exact Iy. }
+        { intro E. apply (iso_del_gone _ (st_id s5) ND5). apply (in_map st_id) in Iy. rewrite E in Iy. exact Iy. }
         apply strms_del_In in Iy. rewrite sc_strms_put in Iy. destruct (strms_put_In _ _ _ Iy) as [->|Iy']; [congruence|].
         unfold c4, c3 in Iy'. rewrite sc_strms_write_reset in Iy'. sc_cbn_in Iy'.
         rewrite Forall_forall in FP. pose proof (FP y Iy') as Py. split; [|apply IDS; exact Iy'].
@@ -320,9 +320,10 @@ Proof.
         + intros y Iy. unfold cc, c4, c3. sc_rw. sc_cbn. apply PO. exact Iy.
         + unfold cc, c4, c3. sc_rw. sc_cbn. exact LAST.
         + intros _. assert (ED : sc_discardID cc = sf_sid fr).
-          { destruct (eh_of fr); [replace (0 =? sf_sid fr) with false in CD by lia
-                                 |replace (st_id s =? sf_sid fr) with true in CD by lia];
-              cbn [negb] in CD; inversion CD as [[E1 E2 E3]]; [exact I5 | exact Es]. }
+          { unfold cc. destruct (eh_of fr).
+            - replace (0 =? sf_sid fr) with false in CD by lia. cbn [negb] in CD. injection CD as E1 E2 E3. exact E1.
+            - replace (st_id s =? sf_sid fr) with true in CD by lia. cbn [negb] in CD. injection CD as E1 E2 E3.
+              rewrite E1. exact Es. }
           rewrite ED. split.
           * unfold cc. rewrite sc_strms_close_stream. rewrite <- I5. apply iso_del_gone. exact ND5.
           * unfold cc, c4, c3. sc_rw. sc_cbn. rewrite <- Es. destruct (IDS s Is). lia.
@@ -332,8 +333,8 @@ Proof.
           * unfold c4, c3 in Ie'. rewrite sc_ring_put, sc_ring_write_reset in Ie'. sc_cbn_in Ie'.
             unfold c4, c3. sc_rw. sc_cbn. apply RING. exact Ie'.
       - unfold next_cur. destruct (eh_of fr); [congruence|]. intros _.
-        replace (st_id s =? sf_sid fr) with true in CD by lia. cbn [negb] in CD. inversion CD as [[E1 E2 E3]].
-        unfold carry_at. rewrite E1, E2, E3. unfold c4, c3. sc_rw. sc_cbn. rewrite Es, N.eqb_refl. reflexivity. }
+        replace (st_id s =? sf_sid fr) with true in CD by lia. cbn [negb] in CD. injection CD as E1 E2 E3.
+        unfold carry_at, cc. rewrite E1, E2, E3. unfold c4, c3. sc_rw. sc_cbn. rewrite Es, N.eqb_refl. reflexivity. }
     destruct (wc && can_close_after_goaway cc)%bool.
     + split; [cbn [brk fst note]; sc_cbn; rewrite DC; exact R | intro Hd'; discriminate Hd'].
     + split; [cbn [cont fst]; rewrite DC; exact R | intros _; exact HC].
